@@ -909,9 +909,63 @@ fn exhaustive(sink: &mut Sink) {
     sink.stat_n("exhaustive.cases", n_cases);
 }
 
+/// Clones of PARSED documents / fragments that carry xml:id values (implementation only: the
+/// forest model of this suite has no xml:id index, suite fidx has): whatever an accessor hands out
+/// for the clone must be a node of the clone ("made entirely of new nodes"), and editing what it
+/// hands out must not show in the source (seed C12g: the index entry of the source document copied
+/// verbatim to the clone).
+fn xml_id_clone_cases(rng: &mut Rng, sink: &mut Sink, n: usize) {
+    for _ in 0..n {
+        let ids: Vec<String> = (0..(1 + rng.below(3))).map(|i| format!("i{}", i)).collect();
+        let mut body = String::new();
+        for (k, id) in ids.iter().enumerate() {
+            body.push_str(&format!("<e{} xml:id=\"{}\">t</e{}>", k, id, k));
+        }
+        let fragment = rng.chance(1, 3);
+        let text = if fragment { body.clone() } else { format!("<r>{}</r>", body) };
+        let mut xot = xot::Xot::new();
+        let doc = match if fragment { xot.parse_fragment(&text) } else { xot.parse(&text) } {
+            Ok(d) => d,
+            Err(_) => continue,
+        };
+        let before = xot.to_string(doc).unwrap_or_default();
+        let clone = match crate::common::guarded(|| xot.clone_node(doc)) {
+            Some(c) => c,
+            None => {
+                sink.fail("C12", "C12:clone_node-of-parsed-document-panics", &format!("clone_node(document) of `{}` panicked", text), &[text.clone()]);
+                continue;
+            }
+        };
+        sink.stat("xmlid-clone.cases");
+        for id in &ids {
+            if let Some(n) = xot.xml_id_node(clone, id) {
+                sink.stat("xmlid-clone.lookup-some");
+                if xot.root(n) != clone {
+                    sink.fail("C12", "C12:clone-hands-out-a-node-of-the-source", &format!("`{}`: xml_id_node(clone, \"{}\") is a node whose root is not the clone", text, id), &[text.clone()]);
+                    continue;
+                }
+            } else {
+                sink.stat("xmlid-clone.lookup-none");
+            }
+            // the source still answers, with its own node
+            match xot.xml_id_node(doc, id) {
+                Some(n) if xot.root(n) == doc => {}
+                other => sink.fail("C12", "C12:clone_node-changed-the-xml-id-index-of-the-source", &format!("`{}`: xml_id_node(source, \"{}\") = {:?} after clone_node", text, id, other.is_some()), &[text.clone()]),
+            }
+        }
+        if xot.to_string(doc).unwrap_or_default() != before {
+            sink.fail("C12", "C12:clone_node-changed-the-source", &format!("`{}` serialises differently after clone_node(document)", text), &[text.clone()]);
+        }
+    }
+}
+
 pub fn run(seed: u64, count: usize, tier: &str, sink: &mut Sink) {
     if tier == "thorough" {
         exhaustive(sink);
+    }
+    {
+        let mut rng = Rng::new(seed ^ 0xC12D);
+        xml_id_clone_cases(&mut rng, sink, if tier == "quick" { 40 } else { 400 });
     }
     let mut rng = Rng::new(seed ^ 0xFC10);
     let n_ops = if tier == "quick" { 8 } else { 20 };
